@@ -10,7 +10,7 @@
 //                                `align` that is >= n, for align a power of two and n > -align;
 //                                the precondition is asserted, not assumed); the real
 //                                align_to is proved equal to this in c08/align_to.c
-//   format / strarray_push    -> never reached by the harnesses; dummy bodies so that the
+//   format / strarray_push / struct_in_memory -> never reached by the harnesses; dummy bodies so that the
 //                                native replay links
 // Include AFTER common.h and AFTER parse.c (chibicc.h has no include guard).
 #ifndef VERIF_PENV_H
@@ -59,5 +59,6 @@ int align_to(int n, int align) {
 
 char *format(char *fmt, ...) { static char buf[8] = ".L..0"; return buf; }
 void strarray_push(StringArray *arr, char *s) {}
+bool struct_in_memory(Type *ty) { VASSERT(0, "codegen.c struct_in_memory reached (not stubbed faithfully)"); return false; }
 
 #endif
